@@ -42,12 +42,20 @@ func genC01(t *rapid.T) C01Case {
 		}
 		leaves = append(leaves, g.AddLeaf(s, rapid.IntRange(0, 5).Draw(t, "tracked") > 0))
 	}
+	if rapid.IntRange(0, 9).Draw(t, "wide") == 0 {
+		return genC01Wide(t, g, leaves, base)
+	}
 	ng := rapid.IntRange(1, 3).Draw(t, "ngraphs")
 	if rapid.IntRange(0, 2).Draw(t, "single") > 0 {
 		ng = 1
 	}
 	var c C01Case
 	budget := 16
+	if rapid.IntRange(0, 11).Draw(t, "manygraphs") == 0 {
+		// many small graphs over the same leaves: nine or more back-propagations add up on a leaf
+		ng = rapid.IntRange(9, 14).Draw(t, "ngraphsmany")
+		budget = 3 * ng
+	}
 	if ng > 1 && rapid.Bool().Draw(t, "interleave") {
 		c.Interleave = true
 		for gi := 0; gi < ng; gi++ {
@@ -102,6 +110,68 @@ func genC01(t *rapid.T) C01Case {
 	if g.Subst > 0 {
 		evid.ClassN("c01.substituted_ops", g.Subst)
 	}
+	return c
+}
+
+// genC01Wide: a wide, shallow graph - 17..40 scalings (sometimes followed by a Sin) of the
+// leaves of the base shape, combined by one Concat along dimension 0, by a chain of Adds or by
+// a pairwise tree of Adds. Many results wait for each other, and a leaf has many consumers.
+func genC01Wide(t *rapid.T, g *prog.Gen, leaves []int, base []int) C01Case {
+	var same []int
+	for _, l := range leaves {
+		if ref.EqShape(g.P.Leaves[l].Shape, base) {
+			same = append(same, l)
+		}
+	}
+	anyTracked := false
+	for _, l := range same {
+		anyTracked = anyTracked || g.P.Leaves[l].Tracked
+	}
+	if !anyTracked {
+		g.P.Leaves[same[0]].Tracked = true
+	}
+	nl := len(g.P.Leaves)
+	n := rapid.IntRange(17, 40).Draw(t, "width")
+	p := g.P
+	id := func() int { return nl + len(p.Nodes) - 1 }
+	var parts []int
+	for i := 0; i < n; i++ {
+		l := rapid.SampledFrom(same).Draw(t, "wideleaf")
+		f := float64(rapid.IntRange(1, 12).Draw(t, "widef")) / 8
+		p.Nodes = append(p.Nodes, prog.Node{Op: "scale", In: []int{l}, F: f})
+		if rapid.IntRange(0, 3).Draw(t, "widesin") == 0 {
+			p.Nodes = append(p.Nodes, prog.Node{Op: "sin", In: []int{id()}})
+		}
+		parts = append(parts, id())
+	}
+	form := rapid.IntRange(0, 2).Draw(t, "wideform")
+	if len(base) == 0 && form == 0 {
+		form = 1
+	}
+	switch form {
+	case 0:
+		p.Nodes = append(p.Nodes, prog.Node{Op: "concat", In: parts, I: 0})
+	case 1:
+		acc := parts[0]
+		for _, q := range parts[1:] {
+			p.Nodes = append(p.Nodes, prog.Node{Op: "add", In: []int{acc, q}})
+			acc = id()
+		}
+	default:
+		for len(parts) > 1 {
+			var next []int
+			for i := 0; i+1 < len(parts); i += 2 {
+				p.Nodes = append(p.Nodes, prog.Node{Op: "add", In: []int{parts[i], parts[i+1]}})
+				next = append(next, id())
+			}
+			if len(parts)%2 == 1 {
+				next = append(next, parts[len(parts)-1])
+			}
+			parts = next
+		}
+	}
+	c := C01Case{P: p, Roots: []int{id()}, Order: []int{0}}
+	c.Graph = make([]int, len(p.Nodes))
 	return c
 }
 
@@ -329,9 +399,15 @@ func checkC01(c C01Case) *Failure {
 	}
 	if cls.multi {
 		evid.Class("c01.multi_graph_shared_leaves")
+		if len(c.Roots) >= 9 {
+			evid.Class("c01.nine_or_more_graphs_over_the_same_leaves")
+		}
 	}
 	if c.Interleave {
 		evid.Class("c01.graphs_built_between_backpropagations")
+	}
+	if len(c.Roots) == 1 && len(c.P.Nodes) >= 18 {
+		evid.Class("c01.wide_graph_17_or_more_branches")
 	}
 	if cls.rootNotLast {
 		evid.Class("c01.root_not_last")
